@@ -44,30 +44,31 @@ type agreedCmd struct {
 type Oracles struct {
 	w *World
 
-	entries   map[idxTerm]entryID // C04/R5 identity registry
-	committed map[uint64]*centry  // C03 registry
-	maxCommit uint64
-	configs   []cfgRec // every configuration entry ever stored anywhere, by (index, term)
-	agreed    []agreedCmd
-	fsmNext   map[*Instance]uint64 // last index handed to this FSM instance (R2)
-	restoreFloor uint64           // indexes <= this are exempt from majority checks (user Restore)
+	entries      map[idxTerm]entryID // C04/R5 identity registry
+	committed    map[uint64]*centry  // C03 registry
+	maxCommit    uint64
+	configs      []cfgRec // every configuration entry ever stored anywhere, by (index, term)
+	agreed       []agreedCmd
+	fsmNext      map[*Instance]uint64 // last index handed to this FSM instance (R2)
+	restoreFloor uint64               // indexes <= this are exempt from majority checks (user Restore)
 
-	leaderOf map[uint64]string // C01/R1
-	leaderObs []LeaderObs
-	acks     map[string][]Ack
-	payloadAt map[uint64]uint64
-	watched  map[uint64]string
+	leaderOf     map[uint64]string // C01/R1
+	leaderObs    []LeaderObs
+	acks         map[string][]Ack
+	payloadAt    map[uint64]uint64
+	watched      map[uint64]string
 	bootstrapped bool
-	timeoutNows map[string][]int64
-	termStart map[string]uint64 // server/term -> first index it appended as leader of that term
-	userSnaps map[uint64]uint64 // state hash of operator-supplied snapshots -> burned index
-	Quiet    bool // faults have stopped: progress rules (C12/R3) are armed
-	snapRepeat map[string]*repeatRec
-	aeRepeat   map[string]*repeatRec
-	senderOf map[uint64]string // C01/R2
+	unconfirmedRestores map[string]int // user restores that replaced a server's state but have not returned nil
+	timeoutNows  map[string][]int64
+	termStart    map[string]uint64 // server/term -> first index it appended as leader of that term
+	userSnaps    map[uint64]uint64 // state hash of operator-supplied snapshots -> burned index
+	Quiet        bool              // faults have stopped: progress rules (C12/R3) are armed
+	snapRepeat   map[string]*repeatRec
+	aeRepeat     map[string]*repeatRec
+	senderOf     map[uint64]string // C01/R2
 
 	// statistics for non-triviality
-	Stats map[string]int
+	Stats     map[string]int
 	LeaderSeq []string // "term:server" in observation order
 
 	// switches (a check may disable rules that do not apply to its engine)
@@ -78,7 +79,7 @@ type Oracles struct {
 func newOracles(w *World) *Oracles {
 	return &Oracles{w: w, entries: map[idxTerm]entryID{}, committed: map[uint64]*centry{}, fsmNext: map[*Instance]uint64{},
 		leaderOf: map[uint64]string{}, senderOf: map[uint64]string{}, Stats: map[string]int{},
-		acks: map[string][]Ack{}, payloadAt: map[uint64]uint64{}, watched: map[uint64]string{}, snapRepeat: map[string]*repeatRec{}, aeRepeat: map[string]*repeatRec{}, userSnaps: map[uint64]uint64{}, termStart: map[string]uint64{}, timeoutNows: map[string][]int64{}}
+		acks: map[string][]Ack{}, payloadAt: map[uint64]uint64{}, watched: map[uint64]string{}, snapRepeat: map[string]*repeatRec{}, aeRepeat: map[string]*repeatRec{}, userSnaps: map[uint64]uint64{}, termStart: map[string]uint64{}, timeoutNows: map[string][]int64{}, unconfirmedRestores: map[string]int{}}
 }
 
 func contentHash(l *raft.Log) uint64 {
@@ -387,6 +388,7 @@ func (o *Oracles) checkSnapshot(in *Instance, op *DiskOp) {
 		var st FSMState
 		if err := jsonUnmarshal(sn.Data, &st); err == nil {
 			o.userSnaps[st.Hash] = m.Index
+			o.unconfirmedRestores[in.ID()]++
 			o.UserRestored(m.Index, st)
 			o.stat("user-restore-snapshot")
 			// C20/R5: refused while a configuration change is uncommitted
